@@ -161,6 +161,10 @@ impl Property for C13 {
                         let got = match acts(&ans) {
                             Some(g) => g,
                             None => {
+                                if let Some(rec) = srv.loop_death() {
+                                    srv.kill();
+                                    return Verdict::fail(rec.signature(), format!("the server loop died: {} {}", rec.file, rec.message));
+                                }
                                 srv.kill();
                                 return Verdict::fail(
                                     format!("c13|no-answer|{}", method),
